@@ -5,6 +5,7 @@ import (
 	"time"
 
 	"github.com/wmnsk/go-pfcp/ie"
+	"github.com/wmnsk/go-pfcp/message"
 )
 
 func init() {
@@ -36,6 +37,11 @@ func scenarioC03(r *Run) {
 	r.DrawStrategy()
 	// RPC latency jitter lets the per-rule goroutines interleave at the daemon
 	r.W.Bess.Faults.LatJit = []time.Duration{0, 50 * time.Microsecond, 400 * time.Microsecond}[r.Ch.Choose(3, "rpcjit")]
+	if r.Ch.Choose(4, "lost-responses") == 1 {
+		// now and then the response of an RPC is lost after the daemon applied the
+		// command (the plug-in sees an error): what the tables hold is unaffected
+		r.W.Bess.Faults.FailDen, r.W.Bess.Faults.FailLostResp = []int{8, 20}[r.Ch.Choose(2, "lost-den")], true
+	}
 	npeers := 1 + r.Ch.Choose(2, "npeers")
 	for i := 0; i < npeers; i++ {
 		r.AddPeer()
@@ -63,6 +69,7 @@ func scenarioC03(r *Run) {
 // after every accepted response.
 func runHistory(r *Run, g *Gen, hc histCfg) {
 	killed := false
+	idleDone := false
 	for op := 0; op < hc.maxOps; op++ {
 		if !r.AgentAlive() || len(r.Violations) > 0 {
 			// one run reports its first discrepancy only: later ones would be
@@ -72,6 +79,9 @@ func runHistory(r *Run, g *Gen, hc histCfg) {
 		p := r.Peers[r.Ch.Choose(len(r.Peers), "peer")]
 		live := r.LiveSessions()
 		kind := r.Ch.Choose(8, "op")
+		if !hc.up4 && !idleDone && len(live) > 0 && r.Ch.Choose(10, "idle-then-release") == 1 {
+			kind = 8
+		}
 		if len(live) == 0 && (kind == 1 || kind == 2 || kind == 5) {
 			kind = 0
 		}
@@ -148,6 +158,36 @@ func runHistory(r *Run, g *Gen, hc histCfg) {
 			} else if res.Rx != nil && r.AgentAlive() {
 				r.Probe("valid-deletion-rejected")
 				r.RejectedValid(s.UPSEID)
+			}
+		case 8: // nothing touches the datapath for 31 minutes (the gRPC channel reads IDLE), then an association is released
+			idleDone = true
+			owner := live[r.Ch.Choose(len(live), "sess")].Peer
+			// the peers keep their associations alive with heartbeats (read timeout 15 s)
+			for t := 0; t < 31*6 && r.AgentAlive(); t++ {
+				r.Sim.RunFor(10 * time.Second)
+				for _, q := range r.Peers {
+					if q.Associated {
+						q.SendMsg(message.NewHeartbeatRequest(q.NextSeq(), ie.NewRecoveryTimeStamp(q.TS), nil))
+					}
+				}
+			}
+			r.Sim.RunFor(time.Second)
+			r.Fault("datapath-channel-idle-before-release")
+			if !r.AgentAlive() {
+				break
+			}
+			rx := owner.Release()
+			r.Op("31 minutes without datapath traffic, then peer%d releases its association -> answered=%v", owner.Idx, rx != nil)
+			r.Skel("idle+release")
+			if rx == nil {
+				break
+			}
+			owner.Associated = false
+			owner.Sessions = map[uint64]*CPSession{}
+			r.Sim.RunFor(500 * time.Millisecond)
+			hc.checkImage(fmt.Sprintf("after the Association Release of peer%d (its sessions are gone) that followed 31 idle minutes", owner.Idx), "release-after-idle")
+			if len(r.Violations) == 0 && owner.AssociateRetry() == nil && r.AgentAlive() {
+				r.Violate(hc.prop, "no-association-response", "re-association after the release got no response")
 			}
 		case 3: // request naming an unknown session: must be rejected and write nothing
 			bogus := uint64(0xDEAD0000) + uint64(r.Ch.Choose(1000, "bogus"))
